@@ -15,8 +15,9 @@ import traceback
 
 VERIF = os.path.dirname(os.path.dirname(os.path.abspath(__file__)))
 REPO = os.environ.get("FLODYM_REPO", "/repo")
-EVIDENCE_DIR = os.path.join(VERIF, "evidence")
-REPLAY_DIR = os.path.join(VERIF, "replay")
+_OUT = os.environ.get("VMON_OUT") or VERIF  # mutant runs write elsewhere so committed evidence is not clobbered
+EVIDENCE_DIR = os.path.join(_OUT, "evidence")
+REPLAY_DIR = os.path.join(_OUT, "replay")
 KNOWN_FILE = os.path.join(VERIF, "known_findings.json")
 
 MAX_SAMPLES = 12
